@@ -72,6 +72,8 @@ def _cmp_key(ctx, f, cls, test, negate=False):
     """normalise `cls.a <op> cls.b|const` to (a, op, b) with class prefixes stripped"""
     if isinstance(test, ast.UnaryOp) and isinstance(test.op, ast.Not):
         return _cmp_key(ctx, f, cls, test.operand, not negate)
+    if isinstance(test, ast.Attribute) and (_class_ref(ctx, f, test.value, cls) or _self_ref(f, test.value, cls)):
+        return (test.attr, 'Eq' if negate else 'NotEq', '0')       # truthiness of a numeric class attribute
     if not (isinstance(test, ast.Compare) and len(test.ops) == 1):
         return None
 
@@ -88,6 +90,13 @@ def _cmp_key(ctx, f, cls, test, negate=False):
     neg = {ast.Gt: ast.LtE, ast.LtE: ast.Gt, ast.Lt: ast.GtE, ast.GtE: ast.Lt, ast.Eq: ast.NotEq, ast.NotEq: ast.Eq}
     if negate:
         op = neg.get(op)
+    # counters are non-negative integers: x > 0, x >= 1 and x != 0 are one condition, and so are x == 0, x <= 0, x < 1
+    if (op, b) in ((ast.Gt, '0'), (ast.GtE, '1')):
+        op = ast.NotEq
+        b = '0'
+    if (op, b) in ((ast.LtE, '0'), (ast.Lt, '1')):
+        op = ast.Eq
+        b = '0'
     return (a, op.__name__ if op else None, b)
 
 
